@@ -78,12 +78,39 @@ Proof. exact smo_run_descent_l. Qed.
 (** the main loop of the model ([smo_loop], solve() of solver_smo.rs) with shrinking switched off: if it terminates, the
     final state satisfies the invariant and its dual objective is not above the initial one.  PARTIAL: the hypothesis
     that working-set selection returns valid pairs (two different positions below n) on every state that satisfies the
-    invariant is assumed, not proved.
-    OPEN: smo_loop_objective_noninc - the same statement without that hypothesis (needs the fold invariants of
-    max_violating_pair / select_working_set(_nu)); the shrinking phases (swap, reconstruct_gradient) and termination. *)
+    invariant is assumed, not proved here; it is discharged below (select_returns_valid_pair), which gives the
+    hypothesis-free smo_loop_objective_noninc.  Still not theorems: the shrinking phases (swap, reconstruct_gradient)
+    and termination. *)
 Theorem smo_loop_objective_noninc_partial : forall inf tiny n (P : problem (F := R)) fuel s iter c s' it,
   0 < tiny -> pShrinking P = false -> smo_inv n P s ->
   (forall st i j, smo_inv n P st -> select R_ops inf tiny P st = Some (i, j) -> valid_pair n (i, j)) ->
   smo_loop R_ops inf tiny fuel P s iter c = Done s' it ->
   smo_inv n P s' /\ dual_obj P s' <= dual_obj P s.
 Proof. exact smo_loop_descent_l. Qed.
+
+(** working-set selection (select_working_set and select_working_set_nu of solver_smo.rs, i.e. [select_std] / [select_nu]
+    of the model with their max_violating_pair(_nu) folds), over the reals, for EVERY state of n positions (in particular
+    every state satisfying smo_inv n): it either reports "optimal" (None) or returns two DIFFERENT positions below n.
+    Reason: the running maximum of max_violating_pair always carries the index i of an active position together with that
+    position's value -y_i G_i, and the second-order choice takes j only among active positions with
+    gmax + y_j G_j > 0 (same class in the nu variant), which is 0 > 0 at j = i. *)
+Theorem select_std_returns_valid_pair : forall inf tiny n (P : problem (F := R)) s i j,
+  length (sA s) = n -> select_std R_ops inf tiny P s = Some (i, j) -> i <> j /\ (i < n)%nat /\ (j < n)%nat.
+Proof. exact select_std_valid_l. Qed.
+
+Theorem select_nu_returns_valid_pair : forall inf tiny n (P : problem (F := R)) s i j,
+  length (sA s) = n -> select_nu R_ops inf tiny P s = Some (i, j) -> i <> j /\ (i < n)%nat /\ (j < n)%nat.
+Proof. exact select_nu_valid_l. Qed.
+
+Theorem select_returns_valid_pair : forall inf tiny n (P : problem (F := R)) s i j,
+  smo_inv n P s -> select R_ops inf tiny P s = Some (i, j) -> valid_pair n (i, j).
+Proof. exact select_valid_inv_l. Qed.
+
+(** the main loop of the model ([smo_loop], solve() of solver_smo.rs) with shrinking switched off, for all five problem
+    kinds (standard and nu selection), with NO hypothesis on the selection rule: if it terminates, the final state
+    satisfies the solver invariant and its dual objective is not above the initial one. *)
+Theorem smo_loop_objective_noninc : forall inf tiny n (P : problem (F := R)) fuel s iter c s' it,
+  0 < tiny -> pShrinking P = false -> smo_inv n P s ->
+  smo_loop R_ops inf tiny fuel P s iter c = Done s' it ->
+  smo_inv n P s' /\ dual_obj P s' <= dual_obj P s.
+Proof. exact smo_loop_descent_full_l. Qed.
